@@ -61,6 +61,7 @@ type GraphSpec struct {
 	InSet      bool // items in a named set (unused members allowed) instead of direct Build arguments
 	Inline     bool // items in an inline wire.NewSet(...) argument of wire.Build
 	PerNode    bool // each node's items in a named set of their own: wire.Build(Set0, Set1, ...)
+	ReverseDecls bool // declarations written in reverse order (sets and providers used before they are declared)
 	ParamNames int  // injector parameter names: 0 arg<i>, 1 blank (_), 2 unnamed parameter list
 	BindOuter  bool // InSet: the bindings are not in the set with their providers but in a wrapper set: Outer = NewSet(Set, binds...)
 	InlineWrap bool // PerNode: each per-node set reference is wrapped in an inline wire.NewSet(...)
@@ -270,7 +271,7 @@ func (g *GraphSpec) Build() (*ir.Program, []*ir.Type) {
 			inj.Err, inj.Cleanup = e, cl
 		}
 	}
-	prog := &ir.Program{Root: p, Injectors: []*ir.Injector{inj}, Hist: g.Hist, ExtraDecl: g.ExtraDecl, PairSets: g.PairSets}
+	prog := &ir.Program{Root: p, Injectors: []*ir.Injector{inj}, Hist: g.Hist, ExtraDecl: g.ExtraDecl, PairSets: g.PairSets, ReverseDecls: g.ReverseDecls}
 	if g.ShowOnly {
 		z := b.Leaf(p, "Z")
 		for _, it := range inj.Items {
